@@ -14,8 +14,9 @@
    (design note N2); everything else is whatever the constructors accept (`csr_map n = Ok m`,
    `csr_hw n = Ok h`), and all_resources() does not raise (`all_resources m = Ok l`, as in C03). *)
 From Coq Require Import ZArith List Bool Lia.
-From Soc Require Import Lib.Res Lib.Bits Model.MemoryMap Model.Hierarchy
-  Proofs.LookupWf Proofs.HierMap Proofs.HierCsr.
+From Soc Require Import Lib.Res Lib.Bits Model.MemoryMap Model.Hierarchy Model.MuxSpec
+  Proofs.LookupWf Proofs.HierMap Proofs.HierCsr Proofs.HierInert Proofs.HierWf.
+From Soc Require Model.CsrDecoder Model.Mux.
 Import ListNotations.
 Open Scope Z_scope.
 
@@ -54,6 +55,38 @@ Theorem C01_csr_map_wellformed : forall n m, csr_dom n -> csr_map n = Ok m ->
 Proof. intros n m Hd. exact (csr_map_good n Hd m). Qed.
 Print Assumptions C01_csr_map_wellformed.
 
+(* unassigned_inert, on the cycle-exact machine (composition of Model/CsrDecoder.v and Model/Mux.v over the
+   tree; `c_leaves` = the element ports of every register in the cycle whose root bus carries `b`, `c_next` =
+   the registered state after that cycle, `c_rdata` = the root bus r_data, a function of the state).
+   From ANY state, with ANY strobes and data on the bus and any register values: an access to an address the
+   root map leaves unassigned raises no register's r_stb in that cycle, no register's w_stb in the following
+   cycle (w_stb is registered; whatever that cycle's own inputs rv', b'), and the root reads zero in the
+   following cycle.  csr_widths: no element has a negative width. *)
+Theorem C01_csr_unassigned_inert : forall n m h l, csr_dom n -> csr_widths n ->
+  csr_map n = Ok m -> csr_hw n = Ok h -> all_resources m = Ok l ->
+  forall s rv b, 0 <= CsrDecoder.addr b < 2 ^ csr_aw n -> decode_address m (CsrDecoder.addr b) = None ->
+  (forall lo, In lo (c_leaves h s rv b) -> lo_rstb lo = false) /\
+  (forall rv' b' lo, In lo (c_leaves h (c_next h s rv b) rv' b') -> lo_wstb lo = false) /\
+  c_rdata h (c_next h s rv b) = 0.
+Proof. exact csr_unassigned_inert. Qed.
+Print Assumptions C01_csr_unassigned_inert.
+
+(* the same for a cycle without strobes, at every address *)
+Theorem C01_csr_idle_inert : forall n h, csr_dom n -> csr_widths n -> csr_hw n = Ok h ->
+  forall s rv b, CsrDecoder.r_stb b = false -> CsrDecoder.w_stb b = false ->
+  (forall lo, In lo (c_leaves h s rv b) -> lo_rstb lo = false) /\
+  (forall rv' b' lo, In lo (c_leaves h (c_next h s rv b) rv' b') -> lo_wstb lo = false) /\
+  c_rdata h (c_next h s rv b) = 0.
+Proof. exact csr_idle_inert. Qed.
+Print Assumptions C01_csr_idle_inert.
+
+(* every multiplexer configuration of the elaborated tree meets the premise of C04/C05 (ascending disjoint
+   registers, admissible shadow sizes), one id per register: the theorems about single multiplexers apply
+   to every multiplexer of every hierarchy *)
+Theorem C01_csr_hw_wellformed : forall n h, csr_dom n -> csr_widths n -> csr_hw n = Ok h -> hw_wf h.
+Proof. intros n h Hd Hw. exact (csr_hw_wf n Hd Hw h). Qed.
+Print Assumptions C01_csr_hw_wellformed.
+
 (* ---- non-vacuity: a 5-bit decoder (alignment 1) over an anonymous 2-bit multiplexer (a two-chunk
    12-bit register at 0 and an 8-bit one at the explicit address 3) and, after align_to(4), a named
    3-bit decoder whose named window at the explicit address 4 holds a 1-bit multiplexer ---- *)
@@ -73,6 +106,26 @@ Example C01_nonvacuous_dom : csr_dom ex_tree.
 Proof.
   cbn [csr_dom ex_tree ex_inner ex_mux0 ex_mux1 o_addr csr_aw].
   repeat split; intros z H; try discriminate. injection H as <-. reflexivity.
+Qed.
+
+Example C01_nonvacuous_widths : csr_widths ex_tree.
+Proof. cbn. unfold ops_widths. repeat split; repeat constructor; cbn; lia. Qed.
+
+(* the machine: a read strobe at address 20 (register 2 behind two windows), then at the unassigned
+   address 21; element ports as (id, r_stb, w_stb) and the root r_data, register 2 holding 0x5A *)
+Example C01_nonvacuous_machine :
+  exists h, csr_hw ex_tree = Ok h /\
+    map (fun o : Z * list lobs => (fst o, map (fun lo => (lo_id lo, lo_rstb lo, lo_wstb lo)) (snd o)))
+        (csr_run h (cinit h)
+           [({| CsrDecoder.addr := 20; CsrDecoder.r_stb := true; CsrDecoder.w_stb := false; CsrDecoder.w_data := 0 |}, [0; 0; 90]);
+            ({| CsrDecoder.addr := 21; CsrDecoder.r_stb := true; CsrDecoder.w_stb := true; CsrDecoder.w_data := 7 |}, [0; 0; 90]);
+            ({| CsrDecoder.addr := 0; CsrDecoder.r_stb := false; CsrDecoder.w_stb := false; CsrDecoder.w_data := 0 |}, [0; 0; 90])]) =
+    [(0, [(0, false, false); (1, false, false); (2, true, false)]);
+     (90, [(0, false, false); (1, false, false); (2, false, false)]);
+     (0, [(0, false, false); (1, false, false); (2, false, false)])].
+Proof.
+  destruct (csr_hw ex_tree) as [h|] eqn:Eh; [|vm_compute in Eh; discriminate].
+  exists h. split; [reflexivity|]. vm_compute in Eh. injection Eh as <-. vm_compute. reflexivity.
 Qed.
 
 Example C01_nonvacuous :
